@@ -332,6 +332,69 @@ def check_banddirs(run, ans, payload, info):
                               dict(cell=info["cell"], nac=info["nac"], build=info["build"], q=qpt, with_eigenvectors=e, is_band_connection=c))
 
 
+# --------------------------------------------------------------------------
+# mesh eigenvectors at the *reported* q-points (q-points relocated into the first BZ can leave [-0.5, 0.5])
+# --------------------------------------------------------------------------
+
+def mesh_reported_q(run, rng, thorough):
+    import phonopy
+
+    todo = [("nacl_prim", [4, 4, 4], False), (rng.choice(["nacl_prim", "zincblende_prim"]), rng.choice([[5, 5, 5], [6, 6, 6], [4, 4, 4]]), False),
+            (rng.choice(["hcp", "wurtzite"]), rng.choice([[3, 3, 2], [4, 4, 2], [5, 5, 3]]), rng.random() < 0.5)]
+    if thorough:
+        todo += [("zincblende_prim", [8, 8, 8], False), ("nacl_prim", [6, 6, 6], False), ("nacl_prim", [5, 5, 5], True), ("wurtzite", [6, 6, 3], False), ("rhombo", [4, 4, 4], False)]
+    n_out = 0
+    for name, mesh, gc in todo:
+        for build in ("omp", "ser"):
+            switch_build(build)
+            cell, cen = gen.make_cell(name)
+            ph = phonopy.Phonopy(cell, supercell_matrix=np.diag([2, 2, 2] if len(cell) <= 2 else [2, 1, 1]), primitive_matrix="P", log_level=0)
+            ph.force_constants = gen.pair_fc(ph.supercell, 1.45 * nn_distance(ph.primitive))
+            fac = ph.unit_conversion_factor
+            info0 = dict(cell=name, mesh=mesh, is_gamma_center=gc, build=build, nac=None)
+            ph.run_mesh(mesh, with_eigenvectors=True, is_gamma_center=gc)
+            md = ph.get_mesh_dict()
+            qs = np.array(md["qpoints"])
+            stored = (np.array(md["frequencies"]), np.array(md["eigenvectors"]))
+            ph.init_mesh(mesh, with_eigenvectors=True, is_gamma_center=gc, use_iter_mesh=True)
+            itf, itv = [], []
+            for f_, v_ in ph.mesh:
+                itf.append(np.array(f_))
+                itv.append(np.array(v_))
+            q_it = np.array(ph.mesh.qpoints)
+            if q_it.shape != qs.shape or not np.allclose(q_it, qs):
+                run.violation("Phonopy.init_mesh", "itermesh-different-grid", "stored and iterated meshes report different q-points", info0)
+                continue
+            sel = list(range(len(qs)))
+            far = [i for i in sel if np.abs(qs[i]).max() > 0.5 + 1e-9]
+            if len(sel) > 40:
+                sel = sorted(set(far[:30] + [int(x) for x in np.linspace(0, len(qs) - 1, 10)]))
+            ph.run_qpoints(qs[sel], with_eigenvectors=True, with_dynamical_matrices=True)
+            dq = ph.get_qpoints_dict()
+            for n_, i in enumerate(sel):
+                D = np.asarray(dq["dynamical_matrices"][n_])
+                Dd = np.array(ph.get_dynamical_matrix_at_q(qs[i]))
+                scale = max(1.0, float(np.abs(D).max()))
+                outside = bool(np.abs(qs[i]).max() > 0.5 + 1e-9)
+                n_out += outside
+                run.case((name, mesh, gc, build, "mesh-reported-q", i), nontrivial=outside)
+                run.count("mesh eigenvector residual at reported q (|q_i| > 0.5: %s)" % outside, section="oracle")
+                if np.abs(D - Dd).max() > TOL * scale:
+                    run.violation("Phonopy.run_qpoints", "dm-differs-from-dynamical-matrix-object", "run_qpoints and the DynamicalMatrix object disagree at the same q", dict(info0, q=qs[i].tolist()))
+                for path, (fr, ev) in (("mesh", (stored[0][i], stored[1][i])), ("itermesh", (itf[i], itv[i]))):
+                    lam = _lam(fr, fac)
+                    resid = float(np.abs(D @ ev - ev * lam[None, :]).max())
+                    lam_q = _lam(dq["frequencies"][n_], fac)
+                    if resid > 1e-7 * scale or not _close(np.sort(lam), np.sort(lam_q)):
+                        run.violation("Mesh._set_phonon" if path == "mesh" else "IterMesh.__next__", "eigvecs-not-at-reported-q",
+                                      "eigenvectors returned for a mesh q-point do not diagonalise the dynamical matrix at the reported q (residual %.3g); they belong to another q" % resid,
+                                      dict(info0, path=path, q=qs[i].tolist(), outside_half=outside))
+    run.cov["oracle"]["mesh q-points compared with |q_i| > 0.5"] = int(n_out)
+    if n_out == 0:
+        run.broke("harness", "no mesh q-point outside [-0.5, 0.5] was generated (the mesh-at-reported-q oracle would be vacuous)")
+    switch_build("omp")
+
+
 def main(run):
     rng = run.rng
     thorough = run.tier == "thorough"
@@ -601,6 +664,9 @@ def main(run):
     multi_expect = []
     multi_lines = []
     multi_segment_band(run, rng, thorough, multi_lines, multi_expect)
+
+    # ---------------- mesh eigenvectors at the reported q (relocated q-points outside [-0.5, 0.5])
+    mesh_reported_q(run, rng, thorough)
 
     # ---------------- direct tests of estimate_band_connection on structured overlaps (exact zeros)
     import phonopy.phonon.band_structure as BS
